@@ -74,9 +74,8 @@ func init() {
 			panic("bad-op")
 		}
 		vurl := rawURL(rest[3])
-		d, _ := strconv.ParseInt(rest[4], 10, 64)
 		dur, _ := strconv.ParseInt(rest[5], 10, 64)
-		signer, err := signature.NewSigner(b.Version, chain, key, vurl, time.Unix(d, 0), time.Duration(dur)*time.Second)
+		signer, err := signature.NewSigner(b.Version, chain, key, vurl, parseTimeArg(rest[4]), time.Duration(dur)*time.Second)
 		if err != nil {
 			return "err newsigner"
 		}
